@@ -18,6 +18,15 @@ CHECKS = {
             "Trusts the 20-line set model in harness/props/c19.py as the meaning of 'maximal paths'; empty paths are not "
             "generated (not constructible through CallPath.add_call callers).",
             "DESIGN.md 3/C19"),
+    "C17": ("exhaustive enumeration of handler registrations against a reference dispatcher model; recorder over the default registration table",
+            "Every registration of up to 3 (quick) / 4 (thorough) handlers over 4 language sets x 8 return behaviours x 3 event "
+            "languages (plus all list/str/set spellings for up to 2/3 handlers, an unregistered event kind, and sampled 4-6 handler "
+            "registrations) is dispatched through a fresh EventManager and compared with a model of the documented rules: which handlers "
+            "ran, in which order, the payload each saw, the combined return flags and the final out_data. The default table is checked by "
+            "recording registrations and dispatches for every event kind x language and during real lowering of seven frontends.",
+            "Model = my reading of docs 5-1 + event_return.py predicates (None counts as processed for data hand-over and carries no flag); "
+            "handlers are registered only through EventManager.register.",
+            "DESIGN.md 3/C17"),
 }
 
 NOT_YET = {}
